@@ -176,6 +176,13 @@ impl<CS: CLCiphersuite> PoKSignature<CL03<CS>> {
             );
 
             if boolean_rproof_e {
+                // one proof of knowledge and one range proof per hidden attribute
+                if CLSPoK.proofs_commited_mi.len() != unrevealed_message_indexes.len()
+                    || CLSPoK.range_proofs_commited_mi.len() != unrevealed_message_indexes.len()
+                {
+                    return false;
+                }
+
                 //Verify RANGE PROOFS mi
                 let mut idx: usize = 0;
                 for i in unrevealed_message_indexes {
